@@ -6,6 +6,7 @@ import GoatProofs.Lemmas.C10ND
 import GoatProofs.Lemmas.C10Claims
 import GoatProofs.Lemmas.C10Paths
 import GoatProofs.Lemmas.C10Override
+import GoatProofs.Lemmas.C10NDFull
 /-
 C10 — "Registered claims and custom claims survive a trip through the library unchanged …
 Numeric dates preserve instants to the nanosecond over the whole supported range, and a value that
@@ -135,13 +136,7 @@ example : decodeUint 8 "255" = .ok 255 ∧ decodeUint 8 "256" = .err "overflow" 
 /-- **numeric_date_roundtrip (integral seconds)** — for every whole-second instant with
     |seconds| ≤ 253402300799, decoding what MarshalJSON wrote gives the instant back.
 
-    FULL STATEMENT (not proved here for a non-zero nanosecond part):
-      ∀ t : Int, |t| < (253402300799+1)·10^9 → (encodeChars t).bind decodeChars = .ok t.
-    The fractional case needs the error-bound argument 128-bit quotient ⇒ |ns error| < 2^-59 ⇒
-    binary64 rounding returns the integer; its text-level and carry/range parts are as here.  It is
-    covered by the correspondence run (claims and custom streams: random instants at nanosecond
-    granularity over the whole range, exact equality required) and by the kernel-evaluated boundary
-    instances below. -/
+    (The whole-second case of `numericDate_roundtrip` below, kept as the lemma it uses.) -/
 theorem numeric_date_roundtrip_integral (s : Int) (hs : -maxEpoch ≤ s ∧ s ≤ maxEpoch) :
     (encodeChars (s * e9)).bind decodeChars = .ok (s * e9) := by
   have hdiv : s * e9 / e9 = s := by unfold e9; omega
@@ -173,8 +168,40 @@ theorem numeric_date_roundtrip_integral_str (s : Int) (hs : -maxEpoch ≤ s ∧ 
   | err c => rw [he] at h; cases h
   | panic p => rw [he] at h; cases h
 
-/-- the round-trip property of one instant (what the full statement asserts for every t in range) -/
+/-- the instants `MarshalJSON` accepts: `-(maxEpoch+1)·10^9 < t < (maxEpoch+1)·10^9` nanoseconds,
+    i.e. |seconds toward zero| ≤ 253402300799 with any nanosecond part -/
+def InRange (t : Int) : Prop := GoatProofs.Lemmas.C10NDFull.InRange t
+
+/-- **numericDate_roundtrip** — for EVERY instant of the accepted range, with ANY nanosecond part,
+    positive or negative: `decode (encode t) = ok t`, to the nanosecond.
+
+    Proof (Lemmas/C10Rne, C10F64, C10Scan, C10Frac, C10NDFull), on the exact big.Float model:
+    the text is `[-]S.F` with k ≤ 9 fraction digits; `Parse` at 128 bits gives `mz·2^-L` with
+    `|mz·10^k − (S·10^k+F)·2^L| ≤ 10^k/2` (correctly rounded quotient, `rne_quot`) and `L ≥ 89`;
+    hence `trunc = S` inexactly, the subtraction is exact, the product with 10^9 rounded to 128 bits
+    is within `2^-59` of the integer `N = F·10^(9-k)`; rounding to binary64 lands on `N` itself
+    (`f64_trunc_near_int`: the neighbours of N are ≥ 2^-23 away — also when the value is just
+    below N), so `Trunc` gives N; negative instants are written with the sign of the value and
+    truncated toward zero on both sides, so they come back exactly as well. -/
+theorem numericDate_roundtrip (t : Int) (h : InRange t) :
+    (encodeChars t).bind decodeChars = .ok t :=
+  GoatProofs.Lemmas.C10NDFull.numericDate_roundtrip t h
+
+/-- whenever `MarshalJSON` succeeds, `UnmarshalJSON` of its output is the instant -/
+theorem numericDate_roundtrip_of_encode (t : Int) (cs : List Char) (h : encodeChars t = .ok cs) :
+    decodeChars cs = .ok t :=
+  GoatProofs.Lemmas.C10NDFull.roundtrip_of_encode t cs h
+
+/-- the round-trip property of one instant, at the `String` level used by the codecs -/
 def NDRoundtrips (t : Int) : Prop := (NumericDate.encode t).bind NumericDate.decode = .ok t
+
+theorem numericDate_roundtrip_str (t : Int) (h : InRange t) : NDRoundtrips t := by
+  have h1 := numericDate_roundtrip t h
+  unfold NDRoundtrips NumericDate.encode NumericDate.decode
+  cases he : encodeChars t with
+  | ok cs => rw [he] at h1; simpa [Outcome.bind, String.toList_ofList] using h1
+  | err c => rw [he] at h1; cases h1
+  | panic p => rw [he] at h1; cases h1
 
 -- kernel-evaluated fractional instances at the boundaries of the range and of the nanosecond
 example : (encodeChars 253402300799999999999).bind decodeChars = .ok 253402300799999999999 := rfl
@@ -207,7 +234,7 @@ inductive WellTyped : Ty → Val → Prop where
   | bool (b : Bool) : WellTyped .bool (.bool b)
   | int (bits : Nat) (i : Int) : -(2 ^ (bits - 1) : Int) ≤ i ∧ i ≤ (2 ^ (bits - 1) : Int) - 1 → WellTyped (.int bits) (.int i)
   | uint (bits : Nat) (n : Nat) : n < 2 ^ bits → WellTyped (.uint bits) (.uint n)
-  | time (t : Int) : NDRoundtrips t → WellTyped .time (.time t)
+  | time (t : Int) : InRange t → WellTyped .time (.time t)
   | ptr (e : Ty) (v : Val) : WellTyped e v → WellTyped (.ptr e) (.ptr (some v))
 
 /-- **custom_roundtrip (partial)** — for every scalar type (string, bool, every signed and unsigned
@@ -251,6 +278,7 @@ theorem custom_roundtrip_partial (o : Oracle) (t : Ty) (v : Val) (hs : Scalar t)
     cases hw with
     | time t ht => intro cur; exact ⟨1, fun fuel hf => by
         obtain ⟨f, rfl⟩ : ∃ f, fuel = f + 1 := ⟨fuel - 1, by omega⟩
+        have ht := numericDate_roundtrip_str t ht
         unfold NDRoundtrips at ht
         cases he : NumericDate.encode t with
         | ok s =>
